@@ -338,9 +338,18 @@ func genSoak(r *Rand, epochs int, spe uint64) (SoakInput, []string) {
 	for k := 0; k < epochs; k++ {
 		e := startEpoch + uint64(k)
 		first := e * spe
-		for s := first; s < first+spe; s++ {
+		prep := first
+		if k == 0 && r.Chance(1, 3) {
+			// vouch started part-way through the epoch: the duties of what is left of it, the current
+			// slot's included (its job is overdue when more than the attestation delay has passed)
+			prep = first + uint64(r.Range(0, int(spe)-1))
+			if prep > first {
+				g.fam["late-start-up"] = true
+			}
+		}
+		for s := prep; s < first+spe; s++ {
 			cur := s
-			if s == first {
+			if s == prep {
 				// epoch preparation: subscriptions for the next epoch, attestations of this one
 				g.add(Op{K: "subscribe", Cur: cur, E: e + 1, OK: !r.Chance(1, 12)})
 				if k == 0 {
